@@ -130,6 +130,11 @@ func (s *Signer) CheckHex(str string) (bool, []byte) {
 	if err != nil {
 		return false, nil
 	}
+	// Only the exact text that SignHex produces is a valid token; other
+	// spellings of the same bytes (upper-case hex letters) are not.
+	if hex.EncodeToString(bs) != str {
+		return false, nil
+	}
 	return s.Check(bs)
 }
 
